@@ -298,9 +298,17 @@ func FirstPositionRecursion(p *load.Prog, r *oblig.Report, rule string) {
 		r.Unknown(rule, "anchor:isFirstPosition", "-", "isFirstPosition not found")
 		return
 	}
+	// the rewrite asked about: the parameter of type *Userset (second of the method, first of a plain function)
 	var usersetParam string
-	if len(fn.Params) >= 2 {
-		usersetParam = fn.Params[1].Name()
+	ui := -1
+	for i, prm := range fn.Params {
+		if strings.HasSuffix(prm.Type().String(), "/v1.Userset") {
+			usersetParam, ui = prm.Name(), i
+		}
+	}
+	if ui < 0 {
+		r.Unknown(rule, "anchor:isFirstPosition", p.Pos(fn.Pos()), "isFirstPosition has no *Userset parameter")
+		return
 	}
 	got := map[string]bool{}
 	// the recursive calls, in the function itself and in helpers of its package it delegates to (their
@@ -328,8 +336,8 @@ func FirstPositionRecursion(p *load.Prog, r *oblig.Report, rule string) {
 				if callee == nil {
 					continue
 				}
-				if callee == fn && len(call.Common().Args) >= 2 {
-					for _, pth := range pathsWithIndex(call.Common().Args[1]) {
+				if callee == fn && len(call.Common().Args) > ui {
+					for _, pth := range pathsWithIndex(call.Common().Args[ui]) {
 						got[subst(pth, env)] = true
 					}
 					continue
